@@ -75,12 +75,12 @@ theorem rr_choose_eq (w : W) (j : Job) (hint : Option Nat) (hr : w.cfg.router = 
   unfold W.chooseTargetWorker
   simp only [hr]
 
-/-- (round-robin, backlog path — finding F9, fixed) `try_route_next_active_job` asks the router for a target and
+/-- (round-robin, backlog path — finding F10, fixed) `try_route_next_active_job` asks the router for a target and
 then routes the job with that target as the hint, so the router is consulted twice for one job. The second
 consultation returns the slot picked by the first and does NOT advance the rotation again — whatever hint the
 first consultation had and whether or not the picked worker is busy: one advance per routed job. (Before the fix a
 busy pick was rejected as a hint and the pointer advanced twice: with 2 workers every backlog job after the first
-two landed on the same worker, witness `corpus/C14/e-lts-f9_round_robin_backlog_uneven.ops`.) -/
+two landed on the same worker, witness `corpus/C14/e-lts-f10_round_robin_backlog_uneven.ops`.) -/
 theorem rr_backlog_single_advance (w : W) (j j' : Job) (hint : Option Nat) (k : Nat) (hr : w.cfg.router = .rr)
     (h1 : (w.chooseTargetWorker j hint).1 = some k) :
     (w.chooseTargetWorker j hint).2.chooseTargetWorker j' (some k) = (some k, (w.chooseTargetWorker j hint).2) := by
